@@ -203,21 +203,55 @@ def check_init_correspondence(ctx, results):
                 continue
         if model != impl:
             ctx.disagree(SUITE + "/init_agent", {"job": job_key(job), "raw": ev["raw"]}, model, impl)
+    # the proved-sound Lean acceptor (PvModel/Accept.lean: acceptRun_sound) on every serial / thread run of a disciplined class:
+    # every _init_agent event is the model's, every reported agent is value-equal to an _init_agent result of its run
+    reqs, metas = [], []
     for r in results:
         job = r["job"]
         if "result" not in r or job.get("mode", "serial") == "process" or job["name"] in DISCIPLINE_EXEMPT or not r.get("inits"):
             continue
         sgn_max = job.get("minmax") == "max"
-        made = set()
+        inits, bad = [], False
         for ev in r["inits"]:
-            a = ev["agent"]
-            c = from_bits(a["cost"])
-            made.add((repr(a["pos"]), bits(-c if sgn_max else c), a["fit"]))
-        orphans = [w for w, a in reported_agents(r) if (repr(a["pos"]), a["cost"], a["fit"]) not in made]
-        ctx.dist["provenance-runs"] += 1
-        if orphans:
-            ctx.disagree(SUITE + "/provenance", {"job": job_key(job), "orphans": orphans[:5]},
-                         "every reported agent is an _init_agent result of its run", f"{len(orphans)} reported agents are not")
+            pj = trace.pos_model_json(ev["agent"]["pos"])
+            if pj is None or (ev["raw"] is not None and any(isinstance(c, dict) for c in ev["raw"])):
+                bad = True
+                break
+            raw = ev["raw"]
+            if raw is not None and any(isinstance(c, list) and len(set(c)) < len(c) for c in raw):
+                # tied permutation keys: numpy's tie order is unspecified, so the exact model output is not demanded of this event
+                # (its ranking is compared relationally above); the acceptor then requires the recorded position to be a fixed point
+                raw = None
+            inits.append({"raw": raw, "pos": pj, "cost": ev["agent"]["cost"], "fit": ev["agent"]["fit"]})
+        gens = []
+        for g in r["result"]["evolution"] + [[r["result"]["best"]]]:
+            gg = []
+            for a in g:
+                pj = trace.pos_model_json(a["pos"])
+                if pj is None:
+                    bad = True
+                    break
+                c = from_bits(a["cost"])
+                gg.append({"pos": pj, "cost": bits(-c if sgn_max else c), "fit": a["fit"]})
+            gens.append(gg)
+        if bad:
+            ctx.dist["acceptor-skipped (malformed coordinate: judged by the C01/C05 oracles)"] += 1
+            continue
+        reqs.append({"op": "run.accept", "task": trace.task_json(job["specs"]), "inits": inits, "gens": gens})
+        metas.append(job)
+    for job, ans in zip(metas, run_driver_parallel(reqs, chunk=40)):
+        ctx.dist["runs-through-lean-acceptor"] += 1
+        if not ans.get("accept"):
+            # a NaN raw candidate violates RawOK, the theorem's hypothesis about the numerical rule: that is C05's finding, not a model mismatch
+            r0 = next(r for r in results if r["job"] is job)
+            def nan_raw(i):
+                raw = r0["inits"][i]["raw"]
+                return raw is not None and any((from_bits(c) != from_bits(c)) if isinstance(c, int) else any(from_bits(x) != from_bits(x) for x in c) for c in raw)
+            if ans.get("badInit") and not ans.get("orphans") and all(nan_raw(i) for i in ans["badInit"]):
+                ctx.dist["acceptor-rejected: NaN raw candidate (RawOK violated; reported by the C05 oracle)"] += 1
+                continue
+            ctx.disagree(SUITE + "/acceptor", {"job": job_key(job), "badInit": ans.get("badInit"), "orphans": ans.get("orphans")},
+                         "acceptRun = true (every _init_agent event is the model's and RawOK; every reported agent comes from one)", "acceptRun = false")
 
 
 def check_c10(ctx, results, prop="C10"):
@@ -307,3 +341,40 @@ def check_c03(ctx, results, prop="C03"):
 def exception_signature(r):
     e = r["exception"]
     return f"{r['job']['name']}/{e['type']}/{e['func']}"
+
+
+def check_skeleton_conformance(ctx, results, steps):
+    """translator validation (a test, not a theorem): what the generated step skeleton of a class claims must be visible in its runs.
+    * all writes `mapGreedy`           ⇒ per index, the cost never increases from one generation to the next;
+    * monotone skeleton (greedy/elitist writes only, size preserved) ⇒ the sorted cost vector never increases at any rank;
+    * size-preserving skeleton         ⇒ constant generation size.
+    A run contradicting its class's skeleton is a correspondence disagreement (the facts claim more than the code does)."""
+    for r in results:
+        job = r["job"]
+        if "result" not in r:
+            continue
+        st = steps.get(job["name"])
+        if not st:
+            continue
+        prims = set()
+        for o in st["ops"]:
+            if o["op"] == "one":
+                prims.add(o["prim"])
+            else:
+                prims |= {p["prim"] if isinstance(p, dict) else p for p in o.get("prims", [])}
+        sgn = -1.0 if job.get("minmax") == "max" else 1.0
+        gens = [[sgn * from_bits(a["cost"]) for a in g] for g in r["result"]["evolution"]]
+        if any(c != c for g in gens for c in g):
+            continue
+        ctx.dist["skeleton-conformance-runs"] += 1
+        for k in range(len(gens) - 1):
+            a, b = gens[k], gens[k + 1]
+            if st["sizePreserving"] and len(a) != len(b):
+                ctx.disagree(SUITE + "/skeleton", {"job": job_key(job), "generation": k + 1}, "size-preserving skeleton", f"sizes {len(a)} -> {len(b)}")
+                break
+            if prims == {"mapGreedy"} and len(a) == len(b) and any(y > x for x, y in zip(a, b)):
+                ctx.disagree(SUITE + "/skeleton", {"job": job_key(job), "generation": k + 1}, "mapGreedy skeleton: per-index cost never increases", "an element got costlier")
+                break
+            if st["monotone"] and len(a) == len(b) and any(y > x for x, y in zip(sorted(a), sorted(b))):
+                ctx.disagree(SUITE + "/skeleton", {"job": job_key(job), "generation": k + 1}, "monotone skeleton: sorted cost vector never increases at any rank", "a rank got costlier")
+                break
